@@ -30,21 +30,63 @@ func init() {
 
 func c06atomic(c *an.Ctx) {
 	persist := c.Fn("nsqd", "(*NSQD).PersistMetadata")
-	wsf := c.Fn("nsqd", "writeSyncFile")
 	nmf := c.Fn("nsqd", "newMetadataFile")
-	if persist == nil || wsf == nil || nmf == nil {
+	if persist == nil || nmf == nil {
+		return
+	}
+	isOpen := func(ci ssa.CallInstruction) bool { return an.StdCallee(ci, "os", "OpenFile") || an.StdCallee(ci, "os", "Create") }
+	// the write unit: the helper PersistMetadata calls to write+fsync the temp file, or
+	// PersistMetadata itself when it opens the file inline
+	wsf := c.P.Func("nsqd", "writeSyncFile")
+	inline := false
+	if wsf == nil && len(an.CallsIn(persist, isOpen)) > 0 {
+		wsf, inline = persist, true
+	}
+	if wsf == nil {
+		for _, ci := range an.CallsIn(persist, func(ssa.CallInstruction) bool { return true }) {
+			if callee := an.StaticCallee(ci); callee != nil && callee.Pkg != nil && callee.Pkg.Pkg.Path() == an.ModPath+"/nsqd" && len(an.CallsIn(callee, isOpen)) > 0 {
+				wsf = callee
+			}
+		}
+	}
+	if wsf == nil {
+		c.Bad(persist, "temp file then rename", persist.Pos(), "PersistMetadata neither opens a file nor calls a helper of package nsqd that does", nil)
 		return
 	}
 	// PersistMetadata
 	var wcalls, rcalls []ssa.CallInstruction
-	wcalls = an.CallsTo(persist, wsf)
+	if inline {
+		wcalls = an.CallsIn(persist, isOpen)
+	} else {
+		wcalls = an.CallsTo(persist, wsf)
+	}
 	rcalls = an.CallsIn(persist, func(ci ssa.CallInstruction) bool { return an.StdCallee(ci, "os", "Rename") })
 	if len(wcalls) != 1 || len(rcalls) != 1 {
-		c.Bad(persist, "temp file then rename", persist.Pos(), sprintf("expected one writeSyncFile and one os.Rename, found %d/%d", len(wcalls), len(rcalls)), nil)
+		c.Bad(persist, "temp file then rename", persist.Pos(), sprintf("expected one write of the temp file and one os.Rename, found %d/%d", len(wcalls), len(rcalls)), nil)
 	} else {
 		wc, rc := wcalls[0], rcalls[0]
-		wSucc, _ := an.ErrEdges(wc.Value())
 		rSucc, _ := an.ErrEdges(rc.Value())
+		// the edges that witness "the temp file was written and fsynced": the helper's success
+		// edge, or (inline) the success edges of Write and of Sync, each required on the way
+		var need [][]an.Edge
+		dataArg := ssa.Value(nil)
+		if inline {
+			for _, m := range []string{"Write", "Sync"} {
+				var es []an.Edge
+				for _, ci := range an.CallsIn(persist, func(ci ssa.CallInstruction) bool { return an.StdCallee(ci, "os", "(*File)."+m) }) {
+					s, _ := an.ErrEdgesPhi(ci.(*ssa.Call))
+					es = append(es, s...)
+					if m == "Write" && len(ci.Common().Args) > 1 {
+						dataArg = ci.Common().Args[1]
+					}
+				}
+				need = append(need, es)
+			}
+		} else {
+			wSucc, _ := an.ErrEdges(wc.Value())
+			need = append(need, wSucc)
+			dataArg = wc.Common().Args[1]
+		}
 		// success return cut by rename success; rename cut by write success
 		// (a return of the rename's own error is nil exactly when the rename succeeded)
 		q1 := &an.PathQ{Fn: persist, StartEntry: true, Marked: an.ResultN(rc.Value(), 0),
@@ -57,15 +99,34 @@ func c06atomic(c *an.Ctx) {
 			},
 			CutEdge: func(e an.Edge, _ *an.PathState) bool { return an.EdgeIn(e, rSucc) }}
 		w1, f1 := q1.Find()
-		q2 := &an.PathQ{Fn: persist, StartEntry: true, Sink: func(in ssa.Instruction, _ *an.PathState) bool { return in == rc.(ssa.Instruction) },
-			CutEdge: func(e an.Edge, _ *an.PathState) bool { return an.EdgeIn(e, wSucc) }}
-		w2, f2 := q2.Find()
+		var w2 []string
+		f2 := false
+		for _, es := range need {
+			es := es
+			q2 := &an.PathQ{Fn: persist, StartEntry: true, Sink: func(in ssa.Instruction, _ *an.PathState) bool { return in == rc.(ssa.Instruction) },
+				CutEdge: func(e an.Edge, _ *an.PathState) bool { return an.EdgeIn(e, es) }}
+			if w, f := q2.Find(); f || len(es) == 0 {
+				w2, f2 = w, true
+			}
+		}
+		if inline {
+			// and the calls themselves lie on every path to the rename (the success edge of a
+			// merged error variable says nothing when the call was skipped)
+			for _, m := range []string{"Write", "Sync"} {
+				m := m
+				q3 := &an.PathQ{Fn: persist, StartEntry: true, Sink: func(in ssa.Instruction, _ *an.PathState) bool { return in == rc.(ssa.Instruction) },
+					Cut: func(in ssa.Instruction, _ *an.PathState) bool { return isStdCall(in, "os", "(*File)."+m) }}
+				if w, f := q3.Find(); f {
+					w2, f2 = w, true
+				}
+			}
+		}
 		if f1 {
 			c.Bad(persist, "nil only after rename succeeded", rc.Pos(), "PersistMetadata can report success although the rename over nsqd.dat failed or did not happen", w1)
 		} else {
 			c.OK(persist, "nil only after rename succeeded", rc.Pos(), "")
 		}
-		if f2 || len(wSucc) == 0 {
+		if f2 {
 			c.Bad(persist, "rename only after write+sync succeeded", rc.Pos(), "the temp file can be renamed over nsqd.dat although writing/fsyncing it failed: a truncated document replaces the good one", w2)
 		} else {
 			c.OK(persist, "rename only after write+sync succeeded", rc.Pos(), "")
@@ -87,7 +148,7 @@ func c06atomic(c *an.Ctx) {
 		// the data written is json.Marshal(GetMetadata(false))
 		getMeta := c.P.Func("nsqd", "(*NSQD).GetMetadata")
 		goodData := false
-		for _, o := range an.Origins(wc.Common().Args[1]) {
+		for _, o := range originsOrNone(dataArg) {
 			if ex, ok := o.(*ssa.Extract); ok {
 				if mc, ok := ex.Tuple.(*ssa.Call); ok && an.StdCallee(mc, "encoding/json", "Marshal") {
 					if getMeta != nil && an.CallResultOf(mc.Call.Args[0], getMeta) != nil {
@@ -167,7 +228,12 @@ func c06atomic(c *an.Ctx) {
 				good, why = false, "Sync is reachable without a successful Write"
 			}
 		}
-		c.Check(good, fn, "nil only after write and fsync succeeded", fn.Pos(), "", "writeSyncFile can return nil without the data being written and fsynced: "+why)
+		if inline {
+			// decided above, in PersistMetadata's own flow: the rename is reached only through the
+			// success edges of Write and Sync
+			good = len(syncs) > 0 && len(writes) > 0
+		}
+		c.Check(good, fn, "nil only after write and fsync succeeded", fn.Pos(), "", an.FnName(fn)+" can return nil without the data being written and fsynced: "+why)
 		// Close on every path after a successful open
 		for _, oc := range opens {
 			succ, _ := an.ErrEdges(oc.Value())
@@ -181,7 +247,8 @@ func c06atomic(c *an.Ctx) {
 		}
 	}
 	// who may touch files in package nsqd: exactly one OpenFile in writeSyncFile and one Rename in PersistMetadata
-	allowed := map[string]string{"nsqd.writeSyncFile": "OpenFile", "(*nsqd.NSQD).PersistMetadata": "Rename"}
+	allowed := map[string][]string{an.FnName(wsf): {"OpenFile"}}
+	allowed["(*nsqd.NSQD).PersistMetadata"] = append(allowed["(*nsqd.NSQD).PersistMetadata"], "Rename")
 	for _, fn := range c.P.PkgFuncs("nsqd") {
 		for _, ci := range an.CallsIn(fn, func(ci ssa.CallInstruction) bool {
 			for _, n := range []string{"OpenFile", "Create", "WriteFile", "Rename", "Remove", "RemoveAll", "Truncate", "Link", "Symlink"} {
@@ -192,7 +259,7 @@ func c06atomic(c *an.Ctx) {
 			return false
 		}) {
 			name := an.StaticCallee(ci).Name()
-			c.Check(allowed[an.FnName(fn)] == name, fn, "file mutation os."+name, ci.Pos(), "",
+			c.Check(contains(allowed[an.FnName(fn)], name), fn, "file mutation os."+name, ci.Pos(), "",
 				"os."+name+" in "+an.FnName(fn)+": the metadata protocol is exactly `write+fsync a temp file (writeSyncFile), rename it over nsqd.dat (PersistMetadata)`; any other file mutation (e.g. removing nsqd.dat before the rename) opens a window in which a crash leaves no or a partial document")
 		}
 	}
@@ -785,4 +852,20 @@ func capturedValue(clos *ssa.Function, fv *ssa.FreeVar) ssa.Value {
 		}
 	})
 	return out
+}
+
+func contains(xs []string, x string) bool {
+	for _, y := range xs {
+		if y == x {
+			return true
+		}
+	}
+	return false
+}
+
+func originsOrNone(v ssa.Value) []ssa.Value {
+	if v == nil {
+		return nil
+	}
+	return an.Origins(v)
 }
